@@ -81,6 +81,9 @@ var paramTable = map[string]paramSpec{
 	"ENVID=rawequals": {text: "ENVID=QQ=314"},
 	"AUTH=rawequals":  {text: "AUTH=e=mc2@example.com"},
 	"ORCPT=rawequals": {text: "ORCPT=rfc822;e=mc2@x.test"},
+	"ENVID=rawctl":    {text: "ENVID=QQ\x01+2B314"},
+	"ENVID=raw8bit":   {text: "ENVID=caf\xc3\xa9"},
+	"ORCPT=rawctl":    {text: "ORCPT=rfc822;b\x7f+2Bc@x.test"},
 	"UNKNOWN=1":       {text: "FOO=1"},
 	"UNKNOWN":         {text: "FOO"},
 	"NOTIFY=NEVER":    {text: "NOTIFY=NEVER", rcpt: func(o *smtp.RcptOptions) { o.Notify = []smtp.DSNNotify{smtp.DSNNotifyNever} }},
